@@ -22,7 +22,11 @@ type EquivCase struct {
 	Parts []string `json:"parts,omitempty"`
 }
 
-const vmLimitEquiv = 100_000
+const vmLimitEquiv = 50_000
+
+// lastRunSteps / lastOverBudget: VM instructions of the most recent runSrc call
+var lastRunSteps int64
+var maxStepRatioX100 int64
 
 func runSrc(src, text string) (recs []MatchRec, sig, what string, discard bool) {
 	v, err, p := CompileSafe(src)
@@ -33,6 +37,7 @@ func runSrc(src, text string) (recs []MatchRec, sig, what string, discard bool) 
 		return nil, "compile-error", src + ": " + firstLine(err.Error()), false
 	}
 	res := RunSafe(v, text, vmLimitEquiv)
+	lastRunSteps = res.Steps
 	if res.OverBudget {
 		return nil, "", "", true
 	}
@@ -47,9 +52,22 @@ func checkEquivCase(c EquivCase) (sig, what string, discard bool, nmatches int) 
 	if sig != "" || discard {
 		return sig, what, discard, 0
 	}
+	refSteps := lastRunSteps
 	for i := 1; i < len(c.Sources); i++ {
 		got, sig, what, discard := runSrc(c.Sources[i], c.Text)
+		if refSteps > 0 && !discard {
+			if r := lastRunSteps * 100 / refSteps; r > maxStepRatioX100 {
+				maxStepRatioX100 = r
+			}
+		}
 		if discard {
+			// naming a pattern adds a few call instructions per use (largest ratio observed
+			// on the unchanged tree: 20x, on programs of a few instructions); a rendering
+			// that needs more than 100 times the instructions of the written-out form (and
+			// more than the whole budget) is not the same search any more
+			if refSteps*100+1000 < vmLimitEquiv {
+				return "rendering-diverges", fmt.Sprintf("on %q: [%s] %s finishes in %d VM instructions, but [%s] %s exceeds %d", c.Text, c.Labels[0], c.Sources[0], refSteps, c.Labels[i], c.Sources[i], vmLimitEquiv), false, 0
+			}
 			return "", "", true, 0
 		}
 		if sig == "compile-error" {
@@ -314,6 +332,7 @@ func TestC13(t *testing.T) {
 		if sig != "" {
 			Fail(t, Failure{Property: "C13", Kind: "equiv", What: what, Case: c, Sig: sig})
 		}
+		st.Max("max_variant_steps_per_reference_step_x100", maxStepRatioX100)
 		st.Count(fmt.Sprintf("commands_%d", ncmd))
 		st.Count(fmt.Sprintf("refs_%d", min(totalRefs, 6)))
 		if nm > 0 {
